@@ -18,6 +18,11 @@ theorem render_ne_nil (n : Nat) : render n ≠ [] := by
   · rw [render_lt h]; simp
   · rw [render_ge (by omega)]; simp
 
+theorem render_isEmpty (n : Nat) : (render n).isEmpty = false := by
+  cases h : render n with
+  | nil => exact absurd h (render_ne_nil n)
+  | cons _ _ => rfl
+
 theorem render_all_isDigit (n : Nat) : (render n).all isDigit = true := by
   induction n using Nat.strongRecOn with
   | _ n ih =>
